@@ -38,6 +38,19 @@ Section Search.
   Variable saved : option piter.
   Variable k : nat.
 
+  (* search permission on the root directory of the walk (checked whenever the walk stands on it) *)
+  Definition root_x (vol0 : nat) : bool :=
+    match get h vol0 with Some n => check_permission (node_meta n) OpenLookup (v_user v) | None => false end.
+  Hypothesis Hvx : root_x vol = true.
+
+  Lemma root_check (parent : nat) :
+    Nat.eqb parent vol && negb (match get h parent with
+                                | Some n => check_permission (node_meta n) OpenLookup (v_user v)
+                                | None => false end) = false.
+  Proof.
+    destruct (Nat.eqb_spec parent vol) as [->|Hne]; [|reflexivity]. unfold root_x in Hvx. rewrite Hvx. reflexivity.
+  Qed.
+
   Lemma search_descend (cs : list str) : Forall comp_ok cs ->
     forall (ns done : list str) (n : str) (parent dl : nat) (pi : piter) (fuel : nat),
     cs = done ++ ns ++ [n] -> before cs done pi ->
@@ -61,7 +74,7 @@ Section Search.
       destruct Hv as (Hpart & _ & _ & _ & _ & Hlast).
       rewrite Hpart, Hlast.
       replace (match ns ++ [n] with [] => true | _ :: _ => false end) with false by (destruct ns; reflexivity).
-      rewrite Hl, Hg, Hp.
+      rewrite root_check, Hl, Hg, Hp.
       destruct (IH (done ++ [n1]) n c dl (on_comp cs done n1) f) as (pi' & Hb' & Heq).
       + rewrite Hcs, <- app_assoc. reflexivity.
       + apply on_comp_before.
@@ -85,8 +98,8 @@ Section Search.
         | Some (NDir _ _) => ret EFileExists
         | Some (NFile _ _ _ _) => ret EFileExists
         | Some (NSym link _) =>
-            if Nat.ltb slCountMax (S k) then ret ETooManySymlinks
-            else if slmode_eqb slm SlLstat then ret EFileExists
+            if slmode_eqb slm SlLstat then ret EFileExists
+            else if Nat.ltb slCountMax (S k) then ret ETooManySymlinks
             else
               let saved' := match saved with
                             | None => if slmode_eqb slm SlStat then Some pi1 else None
@@ -100,11 +113,34 @@ Section Search.
     intros Hok Hcs Hb. cbn [search_loop]. rewrite Hos.
     rewrite (@pi_next_step cs done [n] pi Hok Hcs Hb). cbn [negb].
     pose proof (on_comp_views done [] n) as Hv. cbv zeta in Hv. rewrite <- Hcs in Hv.
-    destruct Hv as (Hpart & _ & _ & _ & _ & Hlast). rewrite Hpart, Hlast.
+    destruct Hv as (Hpart & _ & _ & _ & _ & Hlast). rewrite Hpart, Hlast, root_check.
     destruct (alookup str_eqb n (children h dl)) as [c|]; [|reflexivity].
     destruct (get h c) as [[ch m| |]|]; try reflexivity.
   Qed.
+
+  (* the root directory is not searchable: any name is refused on the first step *)
 End Search.
+
+Section SearchRootBlocked.
+  Variable h : heap.
+  Variable v : view.
+  Hypothesis Hos : v_os v = Linux.
+  Variable slm : slmode.
+  Variable vol : nat.
+  Variable saved : option piter.
+  Variable k : nat.
+  Hypothesis Hvx : root_x h v vol = false.
+
+  Lemma search_root_blocked (cs : list str) (c1 : str) (rest : list str) (pi : piter) (f : nat) :
+    Forall comp_ok cs -> cs = c1 :: rest -> before cs [] pi ->
+    sr_err (search_loop (S f) h v slm vol vol pi k saved) = EPermDenied.
+  Proof.
+    intros Hok Hcs Hb. cbn [search_loop]. rewrite Hos.
+    assert (Hcs' : cs = [] ++ c1 :: rest) by exact Hcs.
+    rewrite (@pi_next_step cs [] (c1 :: rest) pi Hok Hcs' Hb). cbn [negb].
+    rewrite Nat.eqb_refl. unfold root_x in Hvx. rewrite Hvx. reflexivity.
+  Qed.
+End SearchRootBlocked.
 
 (* ---- Lstat / OpenFile / ReadDir / Readdirnames of a resolved clean absolute path ------------ *)
 Section Resolved.
@@ -125,16 +161,22 @@ Section Resolved.
     intros Hg. unfold search_node. rewrite (abs_abs_path Hg), Hos. reflexivity.
   Qed.
 
-  (* [resolves cs c]: "/c1/.../ck" names node c through searchable real directories *)
+  (* search permission on the root directory of the view *)
+  Definition rootx : bool := root_x h v r0.
+
+  (* [resolves cs c]: "/c1/.../ck" names node c through searchable real directories (the root included as soon
+     as a name is looked up in it) *)
   Definition resolves (cs : list str) (c : nat) : Prop :=
     (cs = [] /\ c = r0) \/
-    exists ns n dl, cs = ns ++ [n] /\ descend h u r0 ns = Some dl /\ alookup str_eqb n (children h dl) = Some c.
+    exists ns n dl, cs = ns ++ [n] /\ rootx = true /\ descend h u r0 ns = Some dl /\ alookup str_eqb n (children h dl) = Some c.
 
   (* the last directory of the chain is not searchable: the name below it is refused *)
   Definition blocked (cs : list str) : Prop :=
-    exists ns nb n dl c m chb, cs = ns ++ [nb; n] /\ descend h u r0 ns = Some dl /\
+    (cs <> [] /\ rootx = false) \/
+    (rootx = true /\
+     exists ns nb n dl c m chb, cs = ns ++ [nb; n] /\ descend h u r0 ns = Some dl /\
       alookup str_eqb nb (children h dl) = Some c /\ get h c = Some (NDir chb m) /\
-      check_permission m OpenLookup u = false.
+      check_permission m OpenLookup u = false).
 
   Lemma search_root (slm : slmode) (f : nat) :
     search_loop (S f) h v slm r0 r0 (pi_new Linux (abs_path [])) 0 None
@@ -152,15 +194,15 @@ Section Resolved.
   Proof.
     intros Hg Hlen Hres Hnd Hk r. subst r. rewrite (search_node_abs slm Hg).
     pose proof (Forall_comp_ok_of Hg) as Hok.
-    destruct Hres as [(-> & ->)|(ns & n & dl & Hcs & Hd & Hl)].
+    destruct Hres as [(-> & ->)|(ns & n & dl & Hcs & Hrx & Hd & Hl)].
     - destruct (@fuel_S 0) as (f & Hf); [cbn [length] in Hlen; lia|]. rewrite Nat.sub_0_r in Hf.
       rewrite Hf, search_root. cbn. auto.
     - assert (Hlen' : length ns < SEARCH_FUEL) by (rewrite Hcs, app_length in Hlen; cbn [length] in Hlen; lia).
-      destruct (@search_descend h v Hos slm r0 None 0 cs Hok ns [] n r0 dl (pi_new Linux (abs_path cs)) SEARCH_FUEL)
+      destruct (@search_descend h v Hos slm r0 None 0 Hrx cs Hok ns [] n r0 dl (pi_new Linux (abs_path cs)) SEARCH_FUEL)
         as (pi' & Hb' & Heq); [exact Hcs|apply pi_new_before|exact Hd|exact Hlen'|].
       rewrite Heq. destruct (fuel_S Hlen') as (f & Hf). rewrite Hf.
       cbn [app] in Hb'.
-      rewrite (@search_last h v Hos slm r0 None 0 cs ns n dl pi' f Hok Hcs Hb'). cbv zeta.
+      rewrite (@search_last h v Hos slm r0 None 0 Hrx cs ns n dl pi' f Hok Hcs Hb'). cbv zeta.
       fold h. rewrite Hl. fold h in Hnd. rewrite Hnd.
       pose proof (on_comp_views ns [] n) as Hv. cbv zeta in Hv. rewrite <- Hcs in Hv.
       destruct Hv as (_ & _ & _ & _ & _ & Hlast).
@@ -169,17 +211,17 @@ Section Resolved.
   Qed.
 
   Lemma search_missing (ns : list str) (n : str) (dl : nat) (slm : slmode) :
-    Forall good_comp (ns ++ [n]) -> length ns < SEARCH_FUEL ->
+    Forall good_comp (ns ++ [n]) -> length ns < SEARCH_FUEL -> rootx = true ->
     descend h u r0 ns = Some dl -> alookup str_eqb n (children h dl) = None ->
     let r := search_node s v (abs_path (ns ++ [n])) slm in
     sr_child r = None /\ sr_err r = ENoSuchFile.
   Proof.
-    intros Hg Hlen Hd Hl r. subst r. rewrite (search_node_abs slm Hg).
+    intros Hg Hlen Hrx Hd Hl r. subst r. rewrite (search_node_abs slm Hg).
     pose proof (Forall_comp_ok_of Hg) as Hok.
-    destruct (@search_descend h v Hos slm r0 None 0 (ns ++ [n]) Hok ns [] n r0 dl (pi_new Linux (abs_path (ns ++ [n]))) SEARCH_FUEL)
+    destruct (@search_descend h v Hos slm r0 None 0 Hrx (ns ++ [n]) Hok ns [] n r0 dl (pi_new Linux (abs_path (ns ++ [n]))) SEARCH_FUEL)
       as (pi' & Hb' & Heq); [reflexivity|apply pi_new_before|exact Hd|exact Hlen|].
     rewrite Heq. destruct (fuel_S Hlen) as (f & Hf). rewrite Hf. cbn [app] in Hb'.
-    rewrite (@search_last h v Hos slm r0 None 0 (ns ++ [n]) ns n dl pi' f Hok eq_refl Hb'). cbv zeta.
+    rewrite (@search_last h v Hos slm r0 None 0 Hrx (ns ++ [n]) ns n dl pi' f Hok eq_refl Hb'). cbv zeta.
     fold h. rewrite Hl. cbn. auto.
   Qed.
 
@@ -187,8 +229,11 @@ Section Resolved.
     Forall good_comp cs -> length cs < SEARCH_FUEL -> blocked cs ->
     sr_err (search_node s v (abs_path cs) slm) = EPermDenied.
   Proof.
-    intros Hg Hlen (ns & nb & n & dl & c & m & chb & Hcs & Hd & Hl & Hgc & Hp).
-    rewrite (search_node_abs slm Hg). pose proof (Forall_comp_ok_of Hg) as Hok.
+    intros Hg Hlen [(Hne & Hrx)|(Hrx & ns & nb & n & dl & c & m & chb & Hcs & Hd & Hl & Hgc & Hp)];
+      rewrite (search_node_abs slm Hg); pose proof (Forall_comp_ok_of Hg) as Hok.
+    { destruct cs as [|c1 rest]; [congruence|].
+      destruct (@fuel_S 0) as (f & Hf); [lia|]. rewrite Nat.sub_0_r in Hf. rewrite Hf.
+      apply (@search_root_blocked h v Hos slm r0 None 0 Hrx (c1 :: rest) c1 rest _ f Hok eq_refl). apply pi_new_before. }
     assert (Hlen' : length ns < SEARCH_FUEL) by (rewrite Hcs, app_length in Hlen; cbn [length] in Hlen; lia).
     (* walk to the blocked directory's parent, seen as "last component" of the shorter chain ns ++ [nb], then one more step *)
     assert (Hcs2 : cs = [] ++ ns ++ [nb] ++ [n]) by (rewrite Hcs; reflexivity).
@@ -204,6 +249,7 @@ Section Resolved.
         rewrite (@pi_next_step cs done (nb :: [n]) pi Hok Hcs' Hb). cbn [negb].
         pose proof (on_comp_views done [n] nb) as Hv. cbv zeta in Hv. rewrite <- Hcs' in Hv.
         destruct Hv as (Hpart & _ & _ & _ & _ & Hlast). rewrite Hpart, Hlast.
+        rewrite (@root_check h v r0 Hrx).
         fold h. rewrite Hl, Hgc. fold u. rewrite Hp. reflexivity.
       - destruct fuel as [|f]; [cbn [length] in Hf; lia|].
         cbn [descend] in Hd.
@@ -216,6 +262,7 @@ Section Resolved.
         pose proof (on_comp_views done (ns ++ [nb; n]) n1) as Hv. cbv zeta in Hv. rewrite <- Hcs' in Hv.
         destruct Hv as (Hpart & _ & _ & _ & _ & Hlast). rewrite Hpart, Hlast.
         replace (match ns ++ [nb; n] with [] => true | _ :: _ => false end) with false by (destruct ns; reflexivity).
+        rewrite (@root_check h v r0 Hrx).
         fold h. rewrite Hl1, Hg1. fold u. rewrite Hp1.
         apply (IH (done ++ [n1]) c1 (on_comp cs done n1) f).
         + rewrite Hcs, <- app_assoc. reflexivity.
